@@ -664,7 +664,55 @@ def batch_failures(n, seed, limit=3):
     return fails
 
 
+def sweep_failures():
+    """[B] one beamline, gravity of one direction and ever smaller (then larger again) magnitude, one call after the other in the same
+    process: every call follows the construction for ITS gravity ("tends to the gravity-free angle as g tends to zero" is a statement
+    about such a sequence), for a horizontal and a tilted beam, both functions, and the same magnitudes given in mm/s^2."""
+    import numpy as np
+    import scipp as sc
+    import scipp.constants
+    import mpmath as mp
+    from vf.realrun import real_module
+    bl = real_module('conversion.beamline')
+    h, m = sc.constants.h.value, sc.constants.m_n.value
+    fails = []
+    b2 = np.array([[0.3, 1.2, 3.5], [-0.8, -0.4, 2.0]])
+    lam_A = 30.0
+    for tilt in (0.0, 0.1):
+        b1 = np.array([0.0, np.sin(tilt), np.cos(tilt)]) * 10.0
+        if tilt == 0.0:
+            b1 = np.array([0.0, 0.0, 10.0])
+        for step, (gmag, gunit) in enumerate([(9.80665, 'm/s^2'), (1.0, 'm/s^2'), (1e-3, 'm/s^2'), (1e-9, 'm/s^2'), (25.0, 'm/s^2'), (25.0, 'mm/s^2'), (9806.65, 'mm/s^2')]):
+            g_si = np.array([0.0, -gmag, 0.0]) * (1e-3 if gunit == 'mm/s^2' else 1.0)
+            kw = dict(incident_beam=sc.vector(b1, unit='m'), scattered_beam=sc.vectors(dims=['pixel'], values=b2, unit='m'),
+                      wavelength=sc.scalar(lam_A, unit='angstrom'), gravity=sc.vector([0.0, -gmag, 0.0], unit=gunit))
+            for fname in ('scattering_angles_with_gravity',) + (('scattering_angle_in_yz_plane',) if tilt == 0.0 else ()):
+                ident = f'sweep:tilt={tilt}:step{step}:|g|={gmag} {gunit}:{fname}'
+                try:
+                    r = getattr(bl, fname)(**kw)
+                except Exception as e:  # noqa: BLE001
+                    fails.append({'id': ident, 'problem': f'raised {type(e).__name__}: {e}'[:200]})
+                    continue
+                for k in range(len(b2)):
+                    tt, phi, gamma, delta = reference(b1, b2[k], g_si, lam_A * 1e-10, h, m)
+                    got = {'gamma': r} if fname == 'scattering_angle_in_yz_plane' else {'two_theta': r['two_theta'], 'phi': r['phi']}
+                    want = {'gamma': gamma, 'two_theta': tt, 'phi': phi}
+                    for kx, var in got.items():
+                        err = abs(mp.mpf(float(var.values[k])) - want[kx])
+                        if not err <= 1e-9:
+                            fails.append({'id': ident, 'problem': f'{kx} = {float(var.values[k])!r} for |g| = {gmag} {gunit} after calls with other magnitudes; documented construction '
+                                                                  f'{mp.nstr(want[kx], 15)} (drop {mp.nstr(delta, 5)} m)'})
+                            break
+                    else:
+                        continue
+                    break
+    return fails
+
+
 def native_stand_in(chk):
+    sf = sweep_failures()
+    chk.bounded_check('gravity-magnitude-sweep', 'real scattering_angles_with_gravity / scattering_angle_in_yz_plane called one after the other with the same beams and gravity direction '
+                      'and |g| = 9.8, 1, 1e-3, 1e-9, 25 m/s^2 (also given in mm/s^2) vs the documented construction', '2 beams (horizontal, tilted 0.1 rad) x 7 magnitudes x 2 detectors', 21, sf[:4])
     nb = 120 if chk.tier == 'quick' else 3000
     bf = batch_failures(nb, 44 + chk.seed)
     chk.bounded_check('several-incident-beams-in-one-call', 'real scattering_angles_with_gravity with one incident beam per run (horizontal and tilted mixed), detectors per run: '
@@ -710,6 +758,10 @@ def replay(rec):
     h, m = sc.constants.h.value, sc.constants.m_n.value
     model = rec.get('model') or {}
     name = rec['obligation']
+    if '/bounded/gravity-magnitude-sweep' in name:
+        f = rec.get('meta', {}).get('replay') or {}
+        hit = [x for x in sweep_failures() if x['id'] == f.get('id')]
+        return {'reproduced': bool(hit), 'case': hit[:1]}
     if '/bounded/several-incident-beams-in-one-call' in name:
         f = rec.get('meta', {}).get('replay') or {}
         fails = batch_failures(int(f.get('index', 0)) + 1, int(f.get('seed', 44)), limit=10 ** 6)
